@@ -381,6 +381,149 @@ def r36(ctx, fx, R):
                         "yield 0 or 1; every operator must go through the operator table)" % sorted(used & operand)[0], "%s:%s" % (ev.file, x.get("ln")))
 
 
+def r37(ctx, fx, R):
+    rid = ctx.rule("R3.7", "the `<` / `>` modifier is applied at the occurrence: in the IdentifierValue arm of evaluate_expression_factor every value handed back "
+                   "(`Ok(..)` / `return`, other than a literal None) is computed from the `match` on this occurrence's modifier, directly or through locals "
+                   "bound to it — a value remembered from another occurrence of the same name (a cache keyed by the path alone) makes `>name` evaluate to "
+                   "the low byte after `<name` was seen")
+    ef = fx.fn("mos_core::codegen::evaluator::Evaluator::<'a>::evaluate_expression_factor")
+    if ef is None or not ef.d.get("hir"):
+        ctx.fail_closed(rid, "evaluate_expression_factor not found")
+        return
+    arm = None
+    for n in lib.hwalk(ef.hir["body"]):
+        if n.get("k") == "match":
+            for a in n["arms"]:
+                pk = lib.pat_key(a["pat"])
+                if isinstance(pk, str) and pk.split("(")[0].endswith("ExpressionFactor::IdentifierValue"):
+                    arm = a
+            if arm:
+                break
+    if arm is None:
+        ctx.fail_closed(rid, "IdentifierValue arm not found")
+        return
+
+    def applies_modifier(e):
+        return any(n.get("k") == "match" and any("AddressModifier::" in str(lib.pat_key(a["pat"])) for a in n["arms"]) for n in lib.hwalk(e))
+
+    def locals_of(e):
+        return {lib.hpath(x) for x in lib.hwalk(e) if x.get("k") == "path" and (x.get("res") or {}).get("dk") == "Local"}
+    if not applies_modifier(arm["body"]):
+        ctx.fail_closed(rid, "no match on AddressModifier in the IdentifierValue arm")
+        return
+    # bindings of the arm in source order; a use refers to the nearest binding of its name at or above its line (the dump names locals, it does not number them)
+    binds = []          # [name, line, init expression, carries the modified value]
+    for n in lib.hwalk(arm["body"]):
+        if n.get("k") == "let" and "init" in n:
+            for q in lib.hwalk(n["pat"]):
+                if q.get("k") == "bind":
+                    binds.append([q["name"], q.get("ln") or 0, n["init"], False])
+        elif n.get("k") == "match" and n.get("src") != "ForLoopDesugar":
+            for a in n["arms"]:
+                for q in lib.hwalk(a["pat"]):
+                    if q.get("k") == "bind":
+                        binds.append([q["name"], q.get("ln") or 0, n["scrut"], False])
+
+    def binding(name, line, own=None):
+        # a name used in its own initialiser (`let value = value;`) is the binding before
+        c = [b for b in binds if b[0] == name and b[1] <= (line or 10 ** 9) and b is not own]
+        return max(c, key=lambda b: b[1]) if c else None
+
+    def carries(e, own=None):
+        if applies_modifier(e):
+            return True
+        for x in lib.hwalk(e):
+            if x.get("k") == "path" and (x.get("res") or {}).get("dk") == "Local":
+                b = binding(x["res"].get("name"), x.get("ln"), own)
+                if b is not None and b[3]:
+                    return True
+        return False
+    for _ in range(3):
+        for b in binds:
+            if not b[3] and carries(b[2], b):
+                b[3] = True
+    good = {b[0] for b in binds if b[3]}
+    sites = []
+    for n in lib.hwalk(arm["body"]):
+        if n.get("k") == "ret" and n.get("a") is not None:
+            sites.append(n["a"])
+    # the value of the arm itself
+    tail = arm["body"]
+    while isinstance(tail, dict) and tail.get("k") == "block" and tail.get("expr") is not None:
+        tail = tail["expr"]
+    sites.append(tail)
+    key = "evaluate_expression_factor|IdentifierValue|modifier-applied"
+    ctx.inst(rid, key, sample={"value_sites": len(sites), "locals_carrying_the_modified_value": sorted(good)})
+    bad = 0
+    for e in sites:
+        inner = lib.strip(e)
+        # Ok(x) → x ; a literal None carries no value
+        if inner.get("k") == "call" and lib.pm(lib.hcallee(inner) or "", "Result::Ok"):
+            inner = lib.strip(lib.hargs(inner)[0])
+        if lib.hpath(inner) and str(lib.hpath(inner)).endswith("Option::None"):
+            continue
+        if inner.get("k") == "call" and lib.pm(lib.hcallee(inner) or "", "Result::Err"):
+            continue
+        if carries(inner):
+            continue
+        bad += 1
+        ctx.finding(rid, "%s#%d" % (key, bad), "an identifier's value is handed back without the modifier of this occurrence having been applied (%s): "
+                    "`<name` and `>name` of one name no longer select different bytes" % (repr(lib.hdesc(inner))[:120]), "%s:%s" % (ef.file, e.get("ln")))
+
+
+def r38(ctx, fx, R):
+    rid = ctx.rule("R3.8", "operand starts are not taken for names (regression guards): the literals `true` / `false` end at a word boundary — the tag is followed by "
+                   "not(<identifier character>), so `truex` or `FalseColor` are identifiers; and the scope label `-` / `+` is not recognised in front of `(`, `$` "
+                   "or `\"`, where the `-` can only be the sign of the operand that follows (`-(3)`, `-$10`)")
+    nf = fx.fn("mos_core::parser::number")
+    sf = fx.fn("mos_core::parser::identifier_scope")
+    if nf is None or sf is None:
+        ctx.fail_closed(rid, "parser::number / parser::identifier_scope not found")
+        return
+
+    def expanded(t, depth=0):
+        """terminal descriptions below t, following non-terminals"""
+        out = []
+        for x in grammar.walk(t):
+            if x[0] == "nt" and depth < 4:
+                g = fx.fn(x[1])
+                if g is not None:
+                    out += expanded(grammar.fn_grammar(g), depth + 1)
+            elif x[0] in ("prim", "tag", "char", "lit"):
+                out.append(str(x[1]))
+        return out
+    g = grammar.fn_grammar(nf)
+    words = 0
+    for t in grammar.walk(g):
+        if t[0] == "call" and str(t[1]).endswith("sequence::terminated") and len(t[2]) == 2 and t[2][0][0] == "tag" and str(t[2][0][1]).lower() in ("true", "false"):
+            words += 1
+            k = "number|%s|word-boundary" % t[2][0][1]
+            follow = expanded(t[2][1]) if t[2][1][0] == "not" else []
+            ok = any(a.startswith("alphanumeric") for a in follow) and "_" in follow
+            ctx.inst(rid, k, sample={"literal": t[2][0][1], "not_followed_by": follow})
+            if not ok:
+                ctx.finding(rid, k, "the literal `%s` is not required to end at a word boundary" % t[2][0][1], nf.where)
+    bare = [t for t in grammar.walk(g) if t[0] == "tag" and str(t[1]).lower() in ("true", "false")]
+    if len(bare) > words:
+        k = "number|true-false|word-boundary"
+        ctx.inst(rid, k)
+        ctx.finding(rid, k, "`true` / `false` are recognised as a prefix of a longer word: an identifier that starts with them (`truex`, `FalseColor`) cannot be used "
+                    "in an expression (`unexpected 'x'`)", nf.where)
+    elif not bare:
+        ctx.fail_closed(rid, "the literals true / false were not found in parser::number")
+    g = grammar.fn_grammar(sf)
+    k = "identifier_scope|not-before-operand"
+    nots = [t for t in grammar.walk(g) if t[0] == "not"]
+    follow = [a for t in nots for a in expanded(t)]
+    chars = "".join(a for a in follow if not a.startswith("alpha"))
+    ctx.inst(rid, k, sample={"not_followed_by": follow})
+    if not nots:
+        ctx.fail_closed(rid, "identifier_scope has no negative lookahead")
+    elif not all(c in chars for c in "($"):
+        ctx.finding(rid, k, "the scope label `-` is recognised in front of `(` or `$`: `-(3)`, `-$10`, `5 - -(x)` are rejected (`unexpected '(3'`) although unary "
+                    "minus is documented for every operand", sf.where)
+
+
 def r35(ctx, fx, R):
     rid = ctx.rule("R3.5", "`<`→LowByte→val & 255, `>`→HighByte→(val >> 8) & 255; `!`→NOT (0→1, else 0), `-`→NEG (negate); `$`→Hex→16, `%`→Bin→2, none→Dec→10; "
                    "true→1, false→0; .byte/.word/.dword ↔ Byte/Word/Dword ↔ u8/u16/u32 little-endian; ascii/petscii/petscreen ↔ encoder arms, default ascii; "
@@ -730,6 +873,8 @@ def run(ctx):
     R = ref()
     r31_33_34(ctx, fx, R)
     r36(ctx, fx, R)
+    r37(ctx, fx, R)
+    r38(ctx, fx, R)
     r32(ctx, fx, R)
     r35(ctx, fx, R)
     ctx.not_decided("numeric results of the underlying i64 operations (rustc's), PETSCII conversion tables, string interpolation values, "
